@@ -24,7 +24,7 @@ Definition jsx_free_name (n : node) : bool :=
   match n with
   | Ident _ _ _ => true
   | JNs (IdName _) (IdName _) => true
-  | NObj _ => sq "JSXMemberExpression" (ntype n)
+  | NObj _ => sq "JSXMemberExpression" (ntype n) && jsx_free n
   | _ => false
   end.
 
@@ -38,8 +38,7 @@ Fixpoint ready (n : node) {struct n} : bool :=
       match v with
       | NScalar JNull => true
       | Str _ w => jsx_free w
-      | JExprC JEmpty => true
-      | JExprC e => jsx_free e
+      | JExprC e => jsx_free e              (* `a={}` is rejected by the parser *)
       | JsxE _ _ _ _ _ _ | JsxF _ => ready v
       | _ => false
       end
